@@ -41,6 +41,21 @@ var (
 type populator struct {
 	n       int
 	variant int // 0 = everything populated; 1 = pointers/maps/slices of schema nodes nil (sparse)
+	// leave-one-out populations: the skip-th scalar leaf (string, number, flag, cty type or value) keeps its
+	// zero value while everything around it is populated as usual
+	skip, leaf int
+}
+
+func (p *populator) skipLeaf() bool {
+	if p.skip == 0 {
+		return false
+	}
+	p.leaf++
+	if p.leaf == p.skip {
+		p.next() // the values of the other leaves stay what they are in the full population
+		return true
+	}
+	return false
 }
 
 func (p *populator) next() int { p.n++; return p.n }
@@ -89,9 +104,15 @@ func (p *populator) fill(v reflect.Value, depth int) {
 	t := v.Type()
 	switch {
 	case t == tCtyType:
+		if p.skipLeaf() {
+			return
+		}
 		v.Set(reflect.ValueOf(cty.Map(cty.String)))
 		return
 	case t == tCtyValue:
+		if p.skipLeaf() {
+			return
+		}
 		v.Set(reflect.ValueOf(cty.StringVal(fmt.Sprintf("val%d", p.next()))))
 		return
 	case t == tConstraint:
@@ -122,6 +143,12 @@ func (p *populator) fill(v reflect.Value, depth int) {
 	case t == tDefault:
 		v.Set(reflect.ValueOf(schema.DefaultValue{Value: cty.StringVal("def")}))
 		return
+	}
+	switch v.Kind() {
+	case reflect.Bool, reflect.Int, reflect.Int64, reflect.Int32, reflect.Uint, reflect.Uint64, reflect.Uint32, reflect.String:
+		if p.skipLeaf() {
+			return
+		}
 	}
 	switch v.Kind() {
 	case reflect.Bool:
@@ -591,6 +618,30 @@ func runC17(run *Run, replay string) {
 				}
 			}
 			if variant == 0 {
+				// leave-one-out populations: a copy that loses a field only when a neighbouring one is empty
+				count := &populator{variant: 0, skip: 1 << 30}
+				sub.mk(count)
+				leaves := count.leaf
+				if leaves > 300 {
+					leaves = 300
+				}
+				for k := 1; k <= leaves; k++ {
+					pk := &populator{variant: 0, skip: k}
+					ok := sub.mk(pk)
+					ck, pan := callCopy(ok)
+					run.Res.Evaluations++
+					run.Count("leave_one_out_populations")
+					if pan != "" {
+						run.Violate(Violation{Key: "C17/panic/" + sub.name, Rule: "Copy() returns without panicking", Func: "schema." + sub.name + ".Copy",
+							Detail: pan, Replay: map[string]interface{}{"type": sub.name, "variant": "leave-one-out", "leaf": k}})
+						continue
+					}
+					if eq, diff := deepEqual(ok.Interface(), ck.Interface()); !eq {
+						field := firstDiffField(diff)
+						run.Violate(Violation{Key: "C17/not-equal/" + sub.name + "." + field, Rule: "the copy is structurally equal to the original in every field",
+							Func: "schema." + sub.name + ".Copy", Detail: diff, Replay: map[string]interface{}{"type": sub.name, "variant": "leave-one-out", "leaf": k, "field": field}})
+					}
+				}
 				table = append(table, observeFields(sub, orig, cp)...)
 				run.Sample(map[string]interface{}{"type": sub.name, "mutation_paths": len(paths)})
 			}
